@@ -12,15 +12,88 @@ pub fn check(tier: Tier) -> Check {
         Part::new("C12/sweep", json!({"max_payload": tier.pick(48, 96)}), 0, tier.pick(45, 600)),
         // the limit in force is the one announced (or not) by the CONNACK of the *current* connection
         Part::new("C12/reconnect", json!({}), 0, tier.pick(45, 300)),
+        // requests made before the connection that carries them exists
+        Part::new("C12/early", json!({}), 0, 60),
     ];
     Check {
         also_rel: false,
         property: "C12",
         level: "exploration",
-        rule: "all request kinds (publish QoS 0/1/2 with payload 0..max, 112..128 and 16368..16384 bytes - packet lengths on both sides of the one-/two-/three-byte remaining-length steps - and topic 1..3 bytes, subscribe / unsubscribe with 1-2 filters and 0-1 user property, ping, disconnect with / without reason string) x M in {L-1, L, L+1, 1, 2^32-1, absent} x Receive Maximum in {1, absent} x CONNACK {bare, carrying six other properties around them} x connection flavour {bare, every CONNECT option set incl. the client's own Maximum Packet Size 16 and Session Present = 1, a CONNACK received through authorize()}, L computed by the reference encoder; issued on an idle client and with a ping, a subscribe and an unsubscribe of other callers outstanding (their acknowledgements must still reach them); followed by a QoS 1 publish, its PUBACK, an accepted subscribe, and an inbound PUBLISH naming the rejected subscription's would-be identifier; (C12/reconnect) one Context connected twice (end-of-stream, set_up on a fresh transport, connect, run): first CONNACK with M1, second with M2, each in {absent, 16, 45, 46, 47, 200}, requests of 46 bytes and of other sizes on both connections - the limit in force is the current connection's; the length L of a SUBSCRIBE depends on the subscription identifier the library will choose, so L is learned from a probe execution of the same history without M (identifier allocation is deterministic in the history) instead of assuming the identifiers count up from 1; non-trivial = a request was refused for size".into(),
+        rule: "all request kinds (publish QoS 0/1/2 with payload 0..max, 112..128 and 16368..16384 bytes - packet lengths on both sides of the one-/two-/three-byte remaining-length steps - and topic 1..3 bytes, subscribe / unsubscribe with 1-2 filters and 0-1 user property, ping, disconnect with / without reason string) x M in {L-1, L, L+1, 1, 2^32-1, absent} x Receive Maximum in {1, absent} x CONNACK {bare, carrying six other properties around them} x connection flavour {bare, every CONNECT option set incl. the client's own Maximum Packet Size 16 and Session Present = 1, a CONNACK received through authorize()}, L computed by the reference encoder; issued on an idle client and with a ping, a subscribe and an unsubscribe of other callers outstanding (their acknowledgements must still reach them); followed by a QoS 1 publish, its PUBACK, an accepted subscribe, and an inbound PUBLISH naming the rejected subscription's would-be identifier; (C12/reconnect) one Context connected twice (end-of-stream, set_up on a fresh transport, connect, run): first CONNACK with M1, second with M2, each in {absent, 16, 45, 46, 47, 200}, requests of 46 bytes and of other sizes on both connections - the limit in force is the current connection's; (C12/early) a request (publish QoS 0/1/2, unsubscribe, ping, disconnect) made before connect(), or between two connections whose CONNACKs state opposite limits, M in {L-1, L, absent}: it is measured against the limit of the connection that carries it; the length L of a SUBSCRIBE depends on the subscription identifier the library will choose, so L is learned from a probe execution of the same history without M (identifier allocation is deterministic in the history) instead of assuming the identifiers count up from 1; non-trivial = a request was refused for size".into(),
         assumptions: vec![],
         parts,
     }
+}
+
+/// A request issued BEFORE the connection that will carry it exists - before the first connect(), or
+/// between two connections of one Context - is measured against the limit of that connection (the one
+/// its CONNACK announces), not against whatever was known when the request was made.
+fn early(name: String, params: Value) -> Scenario {
+    Box::new(move |chz, ex| {
+        let kind = chz.choose(6);
+        let spec = match kind {
+            0 | 1 | 2 => OpSpec::Publish(PublishSpec::simple(kind as u8, "t/early", &[b'e'; 20])),
+            3 => OpSpec::Unsubscribe(UnsubscribeSpec::simple("filter/early")),
+            4 => OpSpec::Ping,
+            _ => OpSpec::Disconnect(DisconnectSpec {
+                reason: Some(0x04),
+                reason_string: Some("early".into()),
+                ..Default::default()
+            }),
+        };
+        let l = {
+            let mut m = Model::new();
+            let i = m.start(spec.clone());
+            m.request_len(i, false) as u32
+        };
+        let between = chz.choose(2) == 1;
+        let m2 = [Some(l - 1), Some(l), None][chz.choose(3)];
+        let mut sys = Sys::new("C12", &name, chz);
+        sys.params = params.clone();
+        sys.m.check_client_acks = false;
+        let mp = |m: Option<u32>| m.map(|v| vec![Prop::u32(P_MAXIMUM_PACKET_SIZE, v)]).unwrap_or_default();
+        if between {
+            // the first connection said the opposite
+            let m1 = if m2 == Some(l - 1) { None } else { Some(l - 1) };
+            sys.auto_exit = false;
+            sys.bring_up(mp(m1));
+            if !sys.dead {
+                sys.apply(Ev::Eof);
+            }
+            if sys.dead {
+                return sys.report(ex, &[]);
+            }
+            sys.events.push(format!("(first connection M={:?}; the request is made now; second connection M={:?})", m1, m2));
+            sys.w.new_wire();
+            sys.m.new_wire();
+        }
+        sys.apply(Ev::Start(spec));
+        if sys.dead {
+            return sys.report(ex, &[]);
+        }
+        sys.connect_with(
+            ConnectSpec::default(),
+            SPacket::Connack { session_present: false, reason: 0, props: mp(m2) },
+        );
+        if !sys.dead {
+            sys.start_run();
+        }
+        if !sys.dead && sys.m.ctx == CtxSt::Running {
+            let o = sys.m.ops.len() - 1;
+            for _ in 0..2 {
+                if let Some(a) = sys.ack_for(o, 0, "") {
+                    sys.apply(Ev::Deliver(a));
+                }
+            }
+            if !sys.m.pings.is_empty() {
+                sys.apply(Ev::Deliver(SPacket::Pingresp));
+            }
+            sys.apply(Ev::Start(OpSpec::Publish(PublishSpec::simple(1, "f", b""))));
+        }
+        sys.finish();
+        sys.m.hits.push("second-connection");
+        sys.report(ex, &["max-packet-size-refusal", "second-connection"]);
+    })
 }
 
 fn reconnect(name: String, params: Value) -> Scenario {
@@ -105,6 +178,9 @@ fn reconnect(name: String, params: Value) -> Scenario {
 }
 
 pub fn scenario(name: &str, params: &Value) -> Scenario {
+    if name == "C12/early" {
+        return early(name.to_string(), params.clone());
+    }
     if name == "C12/reconnect" {
         return reconnect(name.to_string(), params.clone());
     }
